@@ -1,5 +1,6 @@
 import G3D.Proofs.Volume
 import G3D.Proofs.FlatPolygon
+import G3D.Proofs.Heron
 /-! # C06 — length, area and volume are the exact measures  (full relative to the shoelace / surface-integral
     definitions; their identification with Lebesgue measure is classical and not formalised)
     The model keeps rational numerators: area = areaNum / (2·|n|), pyramid volume = heightNum·areaNum/(6 n·n). -/
@@ -45,4 +46,13 @@ theorem pyramid_volume_term (n pl : V3) (p0 p1 p2 : V3) (rest : List V3)
 
 /-- the vertex mean of a polygon lies in its hull (so every fan triangle is positively oriented) -/
 theorem centre_in_hull (l : List V3) (hl : l ≠ []) : InHull l (meanV l) := mean_in_hull l hl
+/-- the code evaluates each triangle by Heron's formula from the three side lengths; over ℝ that value is half the
+    length of the cross product — the form the model's `triNum` uses -/
+theorem heron_is_half_cross (u v : V3) :
+    let a := Real.sqrt ((normSq u : ℚ) : ℝ)
+    let b := Real.sqrt ((normSq v : ℚ) : ℝ)
+    let c := Real.sqrt ((normSq (sub u v) : ℚ) : ℝ)
+    let s := (a + b + c) / 2
+    Real.sqrt (s * (s - a) * (s - b) * (s - c)) = (1/2) * Real.sqrt ((normSq (cross u v) : ℚ) : ℝ) :=
+  heron_area_V3 u v
 end G3D.Props.C06
